@@ -5,6 +5,7 @@ package croncontroller
 import (
 	"time"
 
+	metav1 "k8s.io/apimachinery/pkg/apis/meta/v1"
 	"k8s.io/client-go/tools/cache"
 
 	execution "github.com/furiko-io/furiko/apis/execution/v1alpha1"
@@ -31,9 +32,11 @@ func VerifH_C03_events() {
 	vz.Assert(len(inf.Handlers) == 1, "C03/handler-registered")
 	h := inf.Handlers[0]
 
-	kind := vz.Choice("event", 8)
+	kind := vz.Choice("event", 10)
 	oldJC := v.jc
 	newJC := oldJC.DeepCopy()
+	var newNAF time.Time
+	hasNewNAF := false
 	scheduledAfter := true // should the JobConfig be scheduled after the event?
 	usesNew := false       // does it fire by the new expression?
 	rebase := true         // must the next priority be recomputed from the flush time?
@@ -71,6 +74,20 @@ func VerifH_C03_events() {
 	case 7: // deleted
 		scheduledAfter = false
 		vz.Cover("event-deleted")
+	case 8: // only the notAfter bound is added / tightened
+		newNAF = vz.Instant("new.notAfter")
+		hasNewNAF = true
+		t := metav1.NewTime(newNAF)
+		far := metav1.NewTime(time.Unix(1<<37, 0))
+		oldJC.Spec.Schedule.Constraints = &execution.ScheduleContraints{NotAfter: &far}
+		newJC.Spec.Schedule.Constraints = &execution.ScheduleContraints{NotAfter: &t}
+		vz.Cover("event-notAfter-set")
+	case 9: // the window is lifted: an expired JobConfig (not in the heap) must come back
+		vz.Assume(!v.inHeap)
+		old := metav1.NewTime(time.Unix(1, 0))
+		oldJC.Spec.Schedule.Constraints = &execution.ScheduleContraints{NotAfter: &old}
+		newJC.Spec.Schedule.Constraints = nil
+		vz.Cover("event-window-lifted")
 	}
 	switch {
 	case kind == 0:
@@ -104,7 +121,13 @@ func VerifH_C03_events() {
 		}
 		vz.Assert(len(env.rec.enq) == before, "C03/no-fire-after-disable-or-delete")
 	}
-	if scheduledAfter && rebase {
+	if hasNewNAF {
+		// the new window is in force from the flush on
+		if in1 {
+			vz.Assert(!time.Unix(int64(p1), 0).After(newNAF), "C03/new-window-in-force")
+		}
+	}
+	if scheduledAfter && rebase && !hasNewNAF {
 		vz.Assert(in1, "C03/created-or-changed-is-scheduled")
 		if in1 {
 			vz.Assert(time.Unix(int64(p1), 0).After(nowF), "C03/nothing-back-dated-before-the-change")
@@ -134,6 +157,9 @@ func VerifH_C03_events() {
 		if usesNew {
 			vz.Assert(newExpr.Returned(e.ts), "C03/new-schedule-only")
 			vz.Cover("fired-by-new-schedule")
+		}
+		if hasNewNAF {
+			vz.Assert(!e.ts.After(newNAF), "C03/new-window-in-force")
 		}
 	}
 }
